@@ -37,6 +37,7 @@ def wiring_case(draw, program):
         c["cache"] = draw(st.sampled_from([-1, 0, 100]))
     if program in ("call", "call-pedigree"):
         c["prior"] = draw(st.booleans())
+        c["zero_pick"] = draw(st.sampled_from([None, 0, 1, 2, 3]))
     if program == "call-pedigree":
         ped, tau, ibd, err = {}, {}, {}, {}
         for i, s in enumerate(samples):
@@ -132,6 +133,20 @@ def check_wiring(ctx, case):
             if err is not None:
                 problems.append(Problem("assemble:raised:%s" % type(err).__name__, CLI.describe(err)))
                 return problems
+            if case.get("prior") and case.get("zero_pick") is not None:
+                # user-supplied prior with a zero entry: that allele must not reach the sampler
+                lines = []
+                for l in out.splitlines():
+                    if l and not l.startswith("#"):
+                        c = l.split("\t")
+                        n_all = 1 + (0 if c[4] == "." else len(c[4].split(",")))
+                        vec = ["0.25"] * n_all
+                        if n_all > 1:
+                            vec[1 + case["zero_pick"] % (n_all - 1)] = "0"
+                        c[7] = ";".join([kv for kv in c[7].split(";") if not kv.startswith("AFP=")] + ["AFP=" + ",".join(vec)])
+                        l = "\t".join(c)
+                    lines.append(l)
+                out = "\n".join(lines) + "\n"
             hap = P.save_vcf(out, os.path.join(wd, "haps.vcf"))
             _, _, hrecs = CLI.parse_records(out)
             extra = list(mcmc)
@@ -191,9 +206,17 @@ def check_wiring(ctx, case):
                         return problems
                     k = log[i]
                     i += 1
-                    if not np.array_equal(np.asarray(k["haplotypes"]), haps):
+                    kh = np.asarray(k["haplotypes"])
+                    kf = None if k.get("frequencies") is None else np.asarray(k["frequencies"], dtype=float)
+                    if kf is not None and len(kf) == len(kh) and len(kh) != len(haps):
+                        # an implementation may hand zero-prior alleles to the sampler as long as their prior stays zero:
+                        # compare after dropping them (whether they can then be sampled is decided by C16 on the output)
+                        keep = kf > 0
+                        kh, kf = kh[keep], kf[keep] / kf[keep].sum()
+                    if not np.array_equal(kh, haps):
                         problems.append(Problem("wiring:%s:haplotypes" % program, "record %s:%d: sampler haplotypes differ from the unmasked, non-zero-prior input haplotypes" % (l.contig, l.start + 1)))
                         return problems
+                    k = dict(k, frequencies=kf)
                     if k.get("frequencies") is None or len(k["frequencies"]) != len(fr) or any(abs(a - b) > 1e-9 for a, b in zip(k["frequencies"], fr)):
                         problems.append(Problem("wiring:%s:frequencies" % program, "record %s:%d: sampler prior %s, expected %s" % (l.contig, l.start + 1, k.get("frequencies"), fr.tolist())))
                         return problems
